@@ -480,7 +480,10 @@ def finder_listing(sg, ops, strata_pts, rng, with_u=False):
     """The partition clause of C05 (and the whole-structure clauses of C06) on the real SymmetryConstraints.
     Yields (kind, message, data)."""
     from diffpy.structure.symmetryutilities import SymmetryConstraints, ExpandAsymmetricUnit
-    made = make_listing(ops, strata_pts, rng)
+    # every third listing is noisier than the default tolerance and is constrained with an explicit, matching tolerance
+    noisy = (not with_u) and rng.random() < 0.34
+    noise, eps = (5e-5, 2e-4) if noisy else (1e-7, None)
+    made = make_listing(ops, strata_pts, rng, noise=noise)
     if made is None:
         return
     positions, labels, exact = made
@@ -499,7 +502,8 @@ def finder_listing(sg, ops, strata_pts, rng, with_u=False):
                 d = [rng.randrange(1, 10) for _ in range(3)]
                 o = [rng.randrange(-2, 3) for _ in range(3)]
                 Uijs.append([[d[0], o[0], o[1]], [o[0], d[1], o[2]], [o[1], o[2], d[2]]])
-    sc = SymmetryConstraints(sg, [list(p) for p in positions], Uijs=Uijs)
+    sc = SymmetryConstraints(sg, [list(p) for p in positions], Uijs=Uijs) if eps is None else \
+        SymmetryConstraints(sg, [list(p) for p in positions], Uijs=Uijs, eps=eps)
     data = {"positions": positions, "labels": labels}
     want = {}
     for i, lab in enumerate(labels):
@@ -527,11 +531,11 @@ def finder_listing(sg, ops, strata_pts, rng, with_u=False):
             yield ("formulas", "position %d has formulas %r" % (i, eq), data)
             return
         y = [eval_formula_ast(eq[c], vals) for c in "xyz"]
-        if not near_mod1(y, list(exact[i]), 4 * TOL_POS):
+        if not near_mod1(y, list(exact[i]), max(4 * TOL_POS, 6 * noise)):
             yield ("reproduce", "listing formulas %r at %r give %s for exact position %s" % (
                 eq, sc.pospars, [float(v) for v in y], [float(v) for v in exact[i]]), data)
             return
-        if max(abs(float(a) - b) for a, b in zip(sc.positions[i], positions[i])) > 1e-5:
+        if max(abs(float(a) - b) for a, b in zip(sc.positions[i], positions[i])) > max(1e-5, 4 * noise):
             yield ("adjust", "position %d was moved from %s to %s" % (i, positions[i], list(sc.positions[i])), data)
             return
     if with_u:
